@@ -190,6 +190,12 @@ func genSched(t *rapid.T, n int) Sched {
 		for i := 0; i < k; i++ {
 			s.Chunks = append(s.Chunks, 1)
 		}
+	case 5: // a stuttering source: an empty read in front of every small piece, far more than
+		// a hundred of them over the whole stream, never two in a row
+		k := rapid.SampledFrom([]int{3, 7, 19}).Draw(t, "stutterChunk")
+		for i := 0; i*k < n && i < 2000; i++ {
+			s.Chunks = append(s.Chunks, 0, k)
+		}
 	case 1: // around the buffer size
 		sz := rapid.SampledFrom([]int{16383, 16384, 16385, 8192, 4096, 16384 * 2}).Draw(t, "bufChunk")
 		for i := 0; i*sz < n; i++ {
